@@ -900,11 +900,13 @@ fn disguise(s: &str, undo: bool) -> String {
     out.into_iter().collect()
 }
 
-/// Map both spellings (`…arset` / `…arsex`, `…tp-equiv` / `…tp-equix`) to one, case-preserving.
+/// Map both spellings (`…arset` / `…arsex`, `…p-equiv` / `…p-equix`) to one, case-preserving. The
+/// stems contain none of the letters that differ (t, v, x), so the two passes cannot disturb each
+/// other ("charsetp-equiv" was a false alarm of a version whose second stem began with t).
 fn canon_disguise(s: &str) -> String {
     let chars: Vec<char> = s.chars().collect();
     let mut out = chars.clone();
-    for (stem, from, to) in [("arse", 't', 'x'), ("tp-equi", 'v', 'x')] {
+    for (stem, from, to) in [("arse", 't', 'x'), ("p-equi", 'v', 'x')] {
         let st: Vec<char> = stem.chars().collect();
         let n = st.len();
         if chars.len() <= n {
@@ -1085,6 +1087,20 @@ impl HtmlWorld {
                     let no_injection = case.schedule.pauses.iter().all(|pa| pa.inject.is_none());
                     if reference.is_ok() && no_injection {
                         return Err(Violation::new("outcome-differs-panic", format!("the scheduled run panics ({}) while the one-piece run completes", crate::world::panic_text(&p).chars().take(300).collect::<String>())));
+                    }
+                    std::panic::resume_unwind(p)
+                },
+            }
+        } else if self.prop == HProp::C18 && !case.schedule.collect_at.is_empty() {
+            // a panic that goes away when the collections are taken out of the schedule is the
+            // collector's doing
+            match std::panic::catch_unwind(std::panic::AssertUnwindSafe(|| run_html(case, record, false))) {
+                Ok(o) => o,
+                Err(p) => {
+                    let mut c2 = case.clone();
+                    c2.schedule.collect_at.clear();
+                    if std::panic::catch_unwind(std::panic::AssertUnwindSafe(|| run_html(&c2, false, false))).is_ok() {
+                        return Err(Violation::new("panics-only-with-collection", format!("the run with collections panics ({}) while the same run without them completes", crate::world::panic_text(&p).chars().take(300).collect::<String>())));
                     }
                     std::panic::resume_unwind(p)
                 },
